@@ -130,7 +130,8 @@ func (opts GeneratorOptions) setFieldValue(t *rapid.T, msg protoreflect.Message,
 		for i := 0; i < n; i++ {
 			if kind == protoreflect.MessageKind || kind == protoreflect.GroupKind {
 				if !opts.setFields(t, field, list.AppendMutable().Message(), depth+1) {
-					list.Truncate(i)
+					// drop the element that was just appended (the list may be shorter than i by now)
+					list.Truncate(list.Len() - 1)
 				}
 			} else {
 				list.Append(opts.genScalarFieldValue(t, field, fmt.Sprintf("%s%d", name, i)))
